@@ -239,3 +239,7 @@ def run(ck: Check, repo: Repo) -> None:
     rule_index_truthiness(ck, repo, folder)
     rule_branch_table(ck, repo, folder)
     rule_filter_first(ck, repo)
+    # 'the scanned text': one window per file, decoded once and filtered as ONE text - a block that is open at a cut
+    # between two separately filtered pieces would be forgotten (shared with C02-R5)
+    from . import c02
+    c02.rule_window(ck, repo, folder, "R4")
